@@ -199,12 +199,24 @@ func runGrammar(c *ShardCtx, g *peg.Grammar, f *family) {
 // finding switched on (singly, then all together); if the observation then
 // agrees completely the violation is exactly that known finding.
 func explainByQuirk(c *ShardCtx, g *peg.Grammar, in []byte, script map[int]*rtapi.Block, ro peg.Options, obs *rtapi.Obs, pt *peg.PosTable, filename string, co core.CmpOpts, f *family, b *core.Built, o *rtapi.RunOpts) string {
-	quirks := c.Quirks()
+	var quirks []string
+	for _, q := range c.Quirks() {
+		// a finding is only considered where its cause is present
+		if q == peg.QLitFFFDEOF && !hasFFFDLit(g) {
+			continue
+		}
+		quirks = append(quirks, q)
+	}
 	try := func(qs []string) bool {
 		r2 := ro
 		r2.Quirks = map[string]bool{}
+		co := co
 		for _, q := range qs {
 			r2.Quirks[q] = true
+			if q == peg.QLitFFFDEOF {
+				// the bogus match at EOF also advances the column counter
+				co.LooseEOFCol, co.InputLen = true, len(in)
+			}
 		}
 		ref := peg.Run(g, in, script, r2)
 		d, skipped := core.Compare(ref, obs, pt, filename, co)
@@ -235,3 +247,15 @@ func wrap(body *peg.Expr, rest ...*peg.Rule) *peg.Grammar {
 }
 
 func strp(s string) *string { return &s }
+
+func hasFFFDLit(g *peg.Grammar) bool {
+	found := false
+	for _, r := range g.Rules {
+		r.Expr.Walk(func(e *peg.Expr) {
+			if e.K == peg.KLit && strings.ContainsRune(e.Val, 0xFFFD) {
+				found = true
+			}
+		})
+	}
+	return found
+}
